@@ -50,7 +50,7 @@ def record_violation(prop, rec):
         if d.get("err", "").startswith("go/format"):
             return "moq rejects its own output: " + d["err"][:300]
         return checks.get("C01", "")
-    if prop in ("C02", "C08", "C09", "C10", "C11", "C12", "C13", "C14", "C15", "C16", "C17", "C20", "C04"):
+    if prop in ("C02", "C05", "C07", "C08", "C09", "C10", "C11", "C12", "C13", "C14", "C15", "C16", "C17", "C20", "C04"):
         return checks.get(prop, "")
     return ""
 
